@@ -17,12 +17,18 @@ sys.path.insert(0, HERE)
 import pbgen, protogen, genpipe
 from pbgen import *
 
+
+def gen_cases_drop_required(rng, sch, msg):
+    import gen_cases
+    return gen_cases.drop_required(rng, sch, msg)
+
 VERIF = os.path.dirname(HERE)
 BUILD = os.path.join(VERIF, 'build')
 DRV = os.path.join(VERIF, 'lean', '.lake', 'build', 'bin', 'pbcdrv')
 
 OPS = {
     'C03': ('pack', 'gendesc'),
+    'C11': ('unpack',),
     'C12': ('gendesc', 'initdump', 'init', 'unpack', 'pack', 'rt', 'acc', 'check'),
     'C13': ('gendesc', 'genenum', 'gensvc', 'lookup'),
     'C14': ('glookup', 'lookup', 'genenum', 'gendesc'),
@@ -32,6 +38,7 @@ OPS = {
 DIRECT_ONLY = ('glookup',)      # operations judged by the direct oracle only (the Lean driver is not given the .proto)
 STAGES = {
     'C03': ('protoc', 'cc'),
+    'C11': ('protoc', 'cc'),
     'C12': ('protoc', 'cc'),
     'C13': ('protoc', 'cc', 'probe', 'probe_run'),
     'C14': ('protoc', 'cc'),
@@ -112,6 +119,16 @@ def build_case(P, rng, nmsgs=12):
                     else:
                         slots.append(('one', 0, init_val(g)))
                 lines.append('pack ' + lit(sch, {'ty': ty, 'slots': slots, 'unk': []}))
+    # every required field without declared default, left off the wire in turn (top level and inside embedded messages):
+    # the generated descriptors must make the parser refuse the input (C11)
+    for ty, m in enumerate(sch.msgs):
+        for _ in range(2):
+            full = rand_msg(rng, sch, ty)
+            for _k in range(4):
+                d = gen_cases_drop_required(rng, sch, full)
+                if d is None:
+                    break
+                lines += ['# reqmiss', 'unpack %d X%s' % (ty, encode(sch, d, rng, {'shuffle': rng.random() < 0.5}).hex())]
     for _ in range(nmsgs):
         ty = rng.randrange(len(sch.msgs))
         m = rand_msg(rng, sch, ty)
@@ -252,6 +269,12 @@ def evaluate(pid, run):
                         fails.append((i, 'parsing empty input does not give the declared defaults: got %s expected %s' % (a[:200], exp[:200])))
             elif op == 'pack':
                 pass
+        if pid == 'C11' and op == 'unpack':
+            ty = int(l.split()[1])
+            if l.endswith(' X') and any(f.label == L_REQ and f.dflt is None for f in sch.msgs[ty].fields) and not a.startswith('fail'):
+                fails.append((i, 'generated descriptors: empty input accepted although a required field without default is missing'))
+            if i > 0 and lines[i - 1] == '# reqmiss' and not a.startswith('fail'):
+                fails.append((i, 'generated descriptors: input lacking a required field (no declared default) was accepted'))
         if pid in ('C12', 'C03'):
             if op == 'pack':
                 m, _ = pbgen.parse_lit(sch, l[5:])
